@@ -115,7 +115,7 @@ def generate(seed, tier, index):
             if twin is not None and rf.chance(0.4):
                 sidx = twin
                 faults.add("euler_other_seed")
-            mode = rf.wchoice([("drive", 6), ("simulate_script", 3)])
+            mode = rf.wchoice([("drive", 6), ("simulate_script", 3), ("simulate_api", 1 if not seedless else 0)])
             ops = list(head)
             via = rf.choice(["LibRDEngine", "factory"])
             if mode == "drive":
@@ -138,6 +138,10 @@ def generate(seed, tier, index):
                 elif ending == "double":
                     ops += [["finalize"], ["finalize"]]
                     faults.add("double_finalize")
+            elif mode == "simulate_api":
+                slices = [rf.wchoice([(1, 3), (2, 2), (rf.randint(3, 30), 3), (10 ** 6, 1)]) for _ in range(rf.randint(1, 3))]
+                ops += [["poison", rf.choice([0, 0xff])], ["simulate_api", {"slices": slices, "ms": 1000}]]
+                faults.add("simulate_api")
             else:
                 slices = [rf.wchoice([(1, 3), (2, 2), (rf.randint(3, 30), 3), (10 ** 6, 1)])
                           for _ in range(rf.randint(1, 4))]
@@ -191,7 +195,7 @@ def _outputs(case, results):
             main_like = sidx == 0 or sidx == case["meta"].get("twin")
             if not main_like:
                 continue
-            if ev["op"] in ("output", "simulate_script", "rerun_kept"):
+            if ev["op"] in ("output", "simulate_script", "rerun_kept", "simulate_api"):
                 outs.append((li, ev["e"], ev["i"], ev))
     return outs
 
